@@ -38,3 +38,39 @@ func init() {
 		}
 	}
 }
+
+func init() {
+	// dbg-rendera-c28corpus <shard> <nshards> <theme>: run the C28 oracle over the thorough corpus slice, print failures
+	eng.Internal["dbg-rendera-c28corpus"] = func(args []string) {
+		var sh, n int
+		var th int64
+		fmt.Sscan(args[0], &sh)
+		fmt.Sscan(args[1], &n)
+		fmt.Sscan(args[2], &th)
+		cnt := map[string]int{}
+		for i, s := range c28CorpusInputs(1500) {
+			if i%n != sh {
+				continue
+			}
+			func() {
+				defer func() {
+					if r := recover(); r != nil {
+						fmt.Printf("PANIC %v on %q\n", r, s)
+					}
+				}()
+				r := c28Oracle(c28In{Src: s, Theme: th}.String())
+				if r.Fail != nil {
+					cnt[r.Fail.Class]++
+					if cnt[r.Fail.Class] <= 2 {
+						fmt.Printf("FAIL %s\n  %s\n  src=%q\n", r.Fail.Class, r.Fail.Detail, s)
+					}
+				} else if len(r.Outcome) > 0 && (r.Outcome[0] == 'n' || r.Outcome[0] == 'l') && len(r.Outcome) < 200 {
+					cnt[r.Outcome]++
+				} else {
+					cnt["ok"]++
+				}
+			}()
+		}
+		fmt.Println(cnt)
+	}
+}
